@@ -6,10 +6,15 @@ CLAIMED = {
     'C01': (
         'Deductive: the position-validation wrapper every positional Script query sits behind is proved, for all '
         'line lists and all (line, column) incl. None, to raise ValueError exactly for out-of-range positions and '
-        'otherwise to enter the query with that very position; further clauses listed in evidence.not_decided.',
+        'otherwise to enter the query with that very position; AST obligation: every positional query is decorated '
+        'with it or passes its position only to one that is; the until-position preludes of extract_variable / '
+        'extract_function proved to let only ValueError/RefactoringError escape (index safety); result attributes of '
+        'syntax errors are total projections.',
         'Trusted: PyVC encoding of Python semantics (DESIGN 2.4), z3/cvc5, parso split_lines gives a non-empty '
-        'line list; inference engine behind the API is not under contract.',
-        'contract-based deductive verification (PyVC VC generation from the real AST + z3/cvc5)', 'DESIGN.md 6/C01'),
+        'line list; exceptions raised inside the inference engine behind the API are NOT decided by contracts (a '
+        'bounded stand-in on the real Script runs in the thorough tier and is reported separately).',
+        'contract-based deductive verification (PyVC VC generation from the real AST + z3/cvc5) + AST obligation',
+        'DESIGN.md 6/C01'),
     'C04': (
         'Deductive: match/_start_match/_fuzzy_match proved equal to the prefix / greedy-subsequence spec for all '
         'strings (recursion with decreases); Completion._complete/complete/name_with_symbols proved: complete is the '
